@@ -1136,7 +1136,10 @@ func checkC09(e *env) {
 			impl = fmt.Sprintf("%d %d", hot[0][0], hot[0][1])
 		}
 		op := fmt.Sprintf("addr %s %d %d", g, p.x, p.y)
-		_, _, inside := g.addr(p)
+		wx, wy, inside := g.addr(p)
+		if inside && impl != "outside" && impl != fmt.Sprintf("%d %d", wx, wy) {
+			r.violation(Violation{Oracle: "address-is-the-pixel-that-contains-the-vertex", Op: op, Impl: impl, Detail: fmt.Sprintf("point (%d,%d) lies in pixel (%d,%d) of the deepest level (floor of the exact quotient)", p.x, p.y, wx, wy)})
+		}
 		r.count("addr", op, !inside || (p.x-g.minX)%g.res == 0 || (p.y-g.minY)%g.res == 0)
 		if (impl == "outside") == inside {
 			r.violation(Violation{Oracle: "accepted-iff-inside-half-open-extent", Op: op, Impl: impl, Detail: fmt.Sprintf("point (%d,%d), extent [%d,%d)x[%d,%d)", p.x, p.y, g.minX, g.minX+size*g.res, g.minY, g.minY+size*g.res)})
